@@ -325,7 +325,12 @@ func runCase(c Case) (rep Report) {
 		// a sequential warm-up of the same functions (first evaluation rewrites argument slots of shared code)
 		warm := Case{Template: c.Template, N: 1, M: 2, Cap: 4, Variant: c.Variant}
 		_, wmain := program(warm)
-		if o := ev.EvalForms(scope, wmain); o.Kind != ev.Value {
+		o, stuck := evalWatched(warm, scope, wmain)
+		if stuck != "" {
+			rep.Msg = stuck + " (during the sequential warm-up)"
+			return
+		}
+		if o.Kind != ev.Value {
 			rep.Msg = "warm-up failed: " + o.String()
 			return
 		}
@@ -339,20 +344,35 @@ func runCase(c Case) (rep Report) {
 		maxAct.Store(0)
 		sharedN.Store(0)
 	}
+	out, stuck := evalWatched(c, scope, main)
+	if stuck != "" {
+		rep.Msg = stuck
+		return
+	}
+	rep.Overlap = int(maxAct.Load())
+	rep.Shared = int(sharedN.Load())
+	if out.Kind != ev.Value {
+		rep.Msg = "main form: " + out.String()
+		return
+	}
+	rep.Msg = judge(c, scope, out.Val)
+	rep.OK = rep.Msg == ""
+	return
+}
+
+// evalWatched evaluates src and watches it: the programs finish in milliseconds; a program that makes no progress (no
+// shared operation) for 20 s and has not finished is stuck. For the mutex template the state is looked at: a mutex
+// that is locked while no routine is inside a critical section was not released on some exit - a state, not a timing.
+func evalWatched(c Case, scope *slip.Scope, src string) (out ev.Outcome, stuck string) {
 	done := make(chan ev.Outcome, 1)
-	go func() { done <- ev.EvalForms(scope, main) }()
-	var out ev.Outcome
-	// watchdog: the programs finish in milliseconds; a program that makes no progress (no shared operation) for 10 s
-	// and has not finished is stuck. For the mutex template the state is looked at: a mutex that is locked while no
-	// routine is inside a critical section was not released on some exit - that is a state, not a timing.
+	go func() { done <- ev.EvalForms(scope, src) }()
 	lastShared, lastChange, held := sharedN.Load(), time.Now(), 0
 	tick := time.NewTicker(100 * time.Millisecond)
 	defer tick.Stop()
-wait:
 	for {
 		select {
 		case out = <-done:
-			break wait
+			return out, ""
 		case <-tick.C:
 			if n := sharedN.Load(); n != lastShared {
 				lastShared, lastChange, held = n, time.Now(), 0
@@ -370,26 +390,15 @@ wait:
 					held = 0
 				}
 				if held >= 30 && time.Since(lastChange) > 3*time.Second {
-					rep.Msg = fmt.Sprintf("STUCK: the mutex has been locked for %d looks in a row while no routine is inside with-mutex-lock and nothing made progress for %.0f s: it was not released on some exit (%d routines still wait)",
+					return out, fmt.Sprintf("STUCK: the mutex has been locked for %d looks in a row while no routine is inside with-mutex-lock and nothing made progress for %.0f s: it was not released on some exit (%d routines still wait)",
 						held, time.Since(lastChange).Seconds(), active.Load())
-					return
 				}
 			}
 			if time.Since(lastChange) > 20*time.Second {
-				rep.Msg = "DEADLINE: the program made no progress for 20 s and has not finished"
-				return
+				return out, "DEADLINE: the program made no progress for 20 s and has not finished"
 			}
 		}
 	}
-	rep.Overlap = int(maxAct.Load())
-	rep.Shared = int(sharedN.Load())
-	if out.Kind != ev.Value {
-		rep.Msg = "main form: " + out.String()
-		return
-	}
-	rep.Msg = judge(c, scope, out.Val)
-	rep.OK = rep.Msg == ""
-	return
 }
 
 func judge(c Case, scope *slip.Scope, val slip.Object) string {
